@@ -16,7 +16,7 @@ RULE = (
     "exponents; parsing the category, quantity-type and unit-name strings (' * ', one ' / ', '(x) ** n') recovers "
     "every factor with its exponent (numerator factors first); all 6322 simple (category, unit) pairs render exactly "
     "their registered category, type, unit and unit name; repr/str/GetFormatted of Scalar, Array, FixedArray and "
-    "FractionScalar show GetUnit(). Non-trivial = >= 2 denominator factors or a repeated quantity type; distinct key "
+    "FractionScalar show GetUnit(). A plain number divided by a derived amount has the same factors with negated exponents; products and quotients of units of different quantity types whose names coincide up to case still list two factors. Non-trivial = >= 2 denominator factors or a repeated quantity type; distinct key "
     "= the composing map."
 )
 ASSUMPTIONS = ["composing units that are themselves compound symbols are excluded by the statement", "no registered category or unit name contains ' * ', ' / ' or ' ** ' (asserted at start)"]
@@ -67,14 +67,15 @@ class Checker:
         if parsed is not None and parsed != joined:
             ctx.fail("unit_string_parses_to_other_factors", case, "GetUnit() = %r parses to %r, composing units are %r" % (unit, parsed, joined))
         # category / quantity type / unit name strings
-        names = OrderedDict()
+        # (exponents are joined per unit *symbol*; two different units that happen to carry the same name stay two factors)
+        by_symbol = OrderedDict()
         for c, (u, e) in cmap.items():
-            nm = db.GetUnitName(db.GetCategoryQuantityType(c), u)
-            names[nm] = names.get(nm, 0) + e
+            by_symbol[u] = by_symbol.get(u, 0) + e
+        names = [(db.GetUnitName(db.unit_to_unit_info[u].quantity_type, u), e) for u, e in by_symbol.items()]
         for what, text, want in (
             ("category", q.GetCategory(), _pos_then_neg([(c, ue[1]) for c, ue in cmap.items()])),
             ("quantity_type", q.GetQuantityType(), _pos_then_neg(list(qts.items()))),
-            ("unit_name", q.GetUnitName(), _pos_then_neg(list(names.items()))),
+            ("unit_name", q.GetUnitName(), _pos_then_neg(names)),
         ):
             ctx.ev()
             try:
@@ -172,7 +173,18 @@ class Checker:
             if dims.tree_size_exp(case["tree"]) > 9:
                 self.ctx.cls("skipped_exponent_bound")
                 return
-            q = self.ev_tree(case["tree"]).GetQuantity()
+            obj = self.ev_tree(case["tree"])
+            q = obj.GetQuantity()
+            if case.get("recip") and q.IsDerived():
+                # a plain number divided by the amount: the same factors, every exponent negated
+                r = (2.0 / obj) if case["recip"] == 1 else (2.0 // obj)
+                want_map = [(c, u, -e) for c, (u, e) in q.GetCategoryToUnitAndExps().items()]
+                got_map = [(c, u, e) for c, (u, e) in r.GetQuantity().GetCategoryToUnitAndExps().items()]
+                self.ctx.ev()
+                if got_map != want_map:
+                    self.ctx.fail("reciprocal_quantity_factors_wrong", case, "2 / %r has factors %r, expected %r" % (obj, got_map, want_map))
+                q = r.GetQuantity()
+                self.ctx.cls("number_divided_by_amount")
         else:
             q = Quantity.CreateDerived(OrderedDict((c, list(ue)) for c, ue in case["map"]))
         self.ctx.cls("kind_" + case["kind"])
@@ -239,7 +251,7 @@ def _strategies(ch):
         order = draw(st.permutations(list(range(len(out)))))
         return {"kind": "direct", "map": [out[i] for i in order]}
 
-    return st.one_of(tree.map(lambda t: {"kind": "tree", "tree": t}), direct())
+    return st.one_of(tree.map(lambda t: {"kind": "tree", "tree": t}), st.tuples(tree, st.sampled_from([1, 1, 2])).map(lambda tr: {"kind": "tree", "tree": tr[0], "recip": tr[1]}), direct())
 
 
 def run_shard(spec, ctx):
@@ -259,6 +271,30 @@ def run_shard(spec, ctx):
             return test
 
         core.hunt(ctx, mk, spec["seed"] * 1000 + spec["shard"], spec["n"])
+        if spec["shard"] % SHARDS[spec["tier"]] == 0:
+            # units of different quantity types whose *names* coincide (up to case): their product and quotient still
+            # list two factors in every string (Byte of 'computer binary memory' against byte of 'digital storage')
+            from barril.units import Scalar
+
+            groups = {}
+            for qt, infos in db.quantity_types.items():
+                for i in infos:
+                    groups.setdefault(i.name.lower(), []).append((qt, i.unit))
+            n_pairs = 0
+            for name, members in sorted(groups.items()):
+                for (qa, ua) in members:
+                    for (qb, ub) in members:
+                        if qa == qb or (ua, ub) >= (ub, ua) and False:
+                            continue
+                        for sym, fn in (("*", lambda: Scalar(1.0, ua) * Scalar(1.0, ub)), ("/", lambda: Scalar(1.0, ua) / Scalar(1.0, ub)), ("./s", lambda: Scalar(1.0, ua) * Scalar(1.0, ub) / Scalar(1.0, "s"))):
+                            case = {"kind": "same_named_units", "ua": ua, "ub": ub, "op": sym}
+                            try:
+                                ch.check_quantity(case, fn().GetQuantity())
+                            except core.Viol as v:
+                                ctx.record(v.key + ":same_named_units", case, v.msg)
+                            n_pairs += 1
+            ctx.cls("same_named_unit_pairs", n_pairs)
+            ctx.exhaustive["units of different quantity types with the same name (up to case)"] = "all %d products / quotients" % n_pairs
         # all simple (category, unit) pairs, split over the shards
         cats = sorted(db.IterCategories())
         nsh = SHARDS[spec["tier"]]
@@ -279,8 +315,14 @@ def replay(case, ctx):
         if case["kind"] == "simple":
             ch.check_simple(case["cat"], case["unit"])
             return ["%s: %s" % (k, v["msg"]) for k, v in ctx.violations.items()]
+        if case["kind"] == "same_named_units":
+            from barril.units import Scalar
+
+            a, b = Scalar(1.0, case["ua"]), Scalar(1.0, case["ub"])
+            q = (a * b if case["op"] == "*" else (a / b if case["op"] == "/" else a * b / Scalar(1.0, "s"))).GetQuantity()
+            return core.replay_guarded(ctx, lambda c: ch.check_quantity(c, q), case)
         if case["kind"] == "tree":
-            case = {"kind": "tree", "tree": _fix_tree(case["tree"])}
+            case = {"kind": "tree", "tree": _fix_tree(case["tree"]), "recip": case.get("recip")}
         else:
             case = {"kind": "direct", "map": [(c, list(ue)) for c, ue in case["map"]]}
         return core.replay_guarded(ctx, ch.check_case, case)
